@@ -54,6 +54,9 @@ type env struct {
 
 	// reference tables computed with the standard library only
 	sigValid [2][nSigSym]bool // [key][symbol]
+	// ed25519 unlock keys shorter than 32 bytes ("e1s": empty, "e1p": first 16 bytes of k1): the key an
+	// implementation can possibly mean is the zero-padded one; validity from crypto/ed25519 (never k1 itself)
+	shortValid map[string][nSigSym]bool
 	preValid [2][nPreSym]bool // [hash leaf][symbol]
 }
 
@@ -114,6 +117,16 @@ func newEnv(seed int64) (*env, error) {
 				return nil, fmt.Errorf("preimage material unusable")
 			}
 		}
+	}
+	e.shortValid = map[string][nSigSym]bool{}
+	for kind, n := range map[string]int{"e1s": 0, "e1p": 16} {
+		var padded [32]byte
+		copy(padded[:], e.pk[0][:n])
+		var tab [nSigSym]bool
+		for s := uint8(0); s < nSigSym; s++ {
+			tab[s] = ed25519.Verify(padded[:], e.sigHash[:], e.sigs[s][:])
+		}
+		e.shortValid[kind] = tab
 	}
 	e.opaqueAddr = types.Address(e.refAddress(leafNodes[kPK1]))
 	return e, nil
